@@ -320,7 +320,12 @@ pub fn random_module_elems(rng: &mut Rng, prefix: &str, max_elems: usize, with_c
 
 pub fn file_text(modules: &[Vec<GenElem>], rng: &mut Rng) -> String {
     let mut s = String::from("ASAP2_VERSION 1 71\n/begin PROJECT p \"\"\n");
+    let last = modules.len().saturating_sub(1);
     for (i, m) in modules.iter().enumerate() {
+        // sometimes a line comment at PROJECT level
+        if rng.chance(1, 4) {
+            s.push_str(&format!("  // project level note {i}\n"));
+        }
         s.push_str(&format!("  /begin MODULE m{i} \"\"\n"));
         for e in m {
             for _ in 0..rng.below(2) {
@@ -330,7 +335,12 @@ pub fn file_text(modules: &[Vec<GenElem>], rng: &mut Rng) -> String {
             s.push_str(&elem_text(e));
             s.push('\n');
         }
-        s.push_str("  /end MODULE\n");
+        // sometimes the closing tags share a line
+        if i == last && rng.chance(1, 3) {
+            s.push_str("  /end MODULE ");
+        } else {
+            s.push_str("  /end MODULE\n");
+        }
     }
     s.push_str("/end PROJECT\n");
     s
